@@ -5,7 +5,7 @@ import fcntl, hashlib, json, os, random, re, shutil, subprocess, sys, tempfile, 
 
 VERIF = os.path.dirname(os.path.dirname(os.path.abspath(__file__)))
 REPO = os.environ.get("VERIF_REPO", "/repo")
-BUILD = os.path.join(VERIF, "build")
+BUILD = os.environ.get("VERIF_BUILD") or os.path.join(VERIF, "build")
 LEAN = os.path.join(VERIF, "lean")
 TARGET = os.path.join(BUILD, "target")
 BIN = os.path.join(BUILD, "bin")
@@ -49,11 +49,22 @@ class BuildLock:
 
 
 def build_rust():
-    """Rebuild the harness and the instrumented redo from /repo's current working tree."""
+    """Rebuild the harness and the instrumented redo from the repository's current working tree."""
     with BuildLock():
-        shutil.copyfile(os.path.join(REPO, "Cargo.lock"), os.path.join(VERIF, "harness", "Cargo.lock"))
+        # the harness crate is materialised under BUILD with a path dependency on REPO
+        hdir = os.path.join(BUILD, "harness")
+        os.makedirs(os.path.join(hdir, "src"), exist_ok=True)
+        os.makedirs(os.path.join(hdir, ".cargo"), exist_ok=True)
+        def put(path, text):
+            if not os.path.exists(path) or open(path).read() != text:
+                with open(path, "w") as f:
+                    f.write(text)
+        put(os.path.join(hdir, "Cargo.toml"), open(os.path.join(VERIF, "harness", "Cargo.toml")).read().replace('path = "/repo"', 'path = "%s"' % REPO))
+        put(os.path.join(hdir, "src", "main.rs"), open(os.path.join(VERIF, "harness", "src", "main.rs")).read())
+        put(os.path.join(hdir, ".cargo", "config.toml"), "[net]\noffline = true\n")
+        shutil.copyfile(os.path.join(REPO, "Cargo.lock"), os.path.join(hdir, "Cargo.lock"))
         r = sh(["cargo", "build", "--offline", "--quiet", "--manifest-path",
-                os.path.join(VERIF, "harness", "Cargo.toml"), "--target-dir", TARGET],
+                os.path.join(hdir, "Cargo.toml"), "--target-dir", TARGET],
                stdout=subprocess.PIPE, stderr=subprocess.STDOUT, text=True)
         if r.returncode != 0:
             return False, "harness build failed:\n" + r.stdout[-4000:]
